@@ -433,6 +433,10 @@ func runGenerators(ps *PropSpec, tmp string) error {
 		case "", "go":
 			args = append([]string{"run", "./generator", "-path=" + filepath.Join(verifDir, "gen", "yang"),
 				"-output_file=" + filepath.Join(outDir, "zz_verif_gen.go"), "-package_name=" + g.Package}, g.Args...)
+		case "gopath": // GoStructs plus path structs in one package
+			args = append([]string{"run", "./generator", "-path=" + filepath.Join(verifDir, "gen", "yang"),
+				"-output_file=" + filepath.Join(outDir, "zz_verif_gen.go"), "-package_name=" + g.Package,
+				"-generate_path_structs", "-path_structs_output_file=" + filepath.Join(outDir, "zz_verif_gen_path.go")}, g.Args...)
 		default:
 			return fmt.Errorf("unknown generator kind %q", g.Kind)
 		}
